@@ -3,14 +3,18 @@
 harness/h_cpu.c is compiled once per subset of CPUSUPPORT_* defines (BUILDS).  Every build is fed
 the same kind of op files:
 
-* family `cpu-<build>`: SHA-256 and CRC32C ops.  L1 = `Spec.Sha256` / `Spec.Crc32c` (pmodel cpu);
-  L2 = the path every dispatch selected (`path`/`force` ops), the CRC state after every call as computed by
-  the instruction-level Lean model of the selected path, the SSE2 message schedule.
-* family `aes-<build>`: AES block and AES-CTR ops.  `Spec.Aes`/`Spec.Ctr` (C02) are not available to pmodel
-  yet, so the reference is AES_REFERENCE: the *portable build* of the same harness (`cpu-none`, OpenSSL
-  software AES + the byte/block loop of crypto_aesctr.c).  This is an implementation-vs-implementation
-  equivalence check and is labelled so in the evidence.  Switching to the Lean spec later is the one line
-  `AES_REFERENCE = "pmodel"` (+ answering `aesblock`/`ctr` in Driver/Cpu.lean).
+* family `cpu-<build>`: SHA-256, CRC32C, single instructions, and a few AES/short-CTR ops.
+  L1 = `Spec.Sha256` / `Spec.Crc32c` (and, for the AES ops, the FIPS-197 transcription `Model.CpuAesni.Fips`),
+  all answered by `pmodel cpu`;  L2 = the path every dispatch selected (`path`/`force` ops), the CRC state after
+  every call as computed by the instruction-level Lean model of the selected path, the SSE2 message schedule,
+  the result of single instructions by the model's SDM transcription, bytectr/pblk/buf of the CTR stream.
+* family `aes-<build>`: AES block and AES-CTR ops incl. long streams.  `Spec.Aes`/`Spec.Ctr` (C02) are not
+  merged yet, so the reference is AES_REFERENCE = "none-build": the *portable build* of the same harness
+  (`cpu-none`, OpenSSL software AES + the byte/block loop of crypto_aesctr.c).  This is an
+  implementation-vs-implementation equivalence check and is labelled so in the evidence.  Switching to the Lean
+  side is the one line `AES_REFERENCE = "pmodel"` (or C03_AES_REFERENCE=pmodel in the environment): `pmodel cpu`
+  already answers `aesblock`/`ctr` from `Model.CpuAesni.Fips`; replace that by `Spec.Aes` in Driver/Cpu.lean
+  (`aesBlock`) when C02 is merged.
 """
 import os
 import shutil
@@ -19,7 +23,7 @@ import vlib
 from vlib import hx
 
 MODULES = ["Percival.Properties.C03", "Percival.KAT.CpuAesni"]
-AES_REFERENCE = "none-build"          # "pmodel" once Spec.Aes / Spec.Ctr answer aesblock / ctr in `pmodel cpu`
+AES_REFERENCE = os.environ.get("C03_AES_REFERENCE", "none-build")   # "pmodel": judge AES/CTR by Model.CpuAesni.Fips (later: Spec.Aes) instead
 
 BASE = ["CPUSUPPORT_X86_CPUID", "CPUSUPPORT_X86_CPUID_COUNT"]
 # name -> CPUSUPPORT_X86_* features defined for that build
@@ -366,13 +370,18 @@ def check(ctx):
     comps = components(ctx)
     ctx.assumptions += [
         "the host executes SHA-NI, SSSE3, SSE2, SSE4.2 (64-bit) and AES-NI (checked: the `path` op of every build must report the expected variant)",
-        "instruction semantics (CRC32, SSE2 shifts/shuffles) are transcribed from the Intel SDM; SHA-NI and AES-NI instructions are not modelled "
-        "(those paths are tied by the correspondence run only)",
+        "instruction semantics (CRC32 r32,r/m8|32|64; PSRLD/PSLLD/PSRLQ/PSHUFD/PSLLDQ/PSRLDQ/MOVSS/PSHUFB/PALIGNR/PUNPCK*QDQ; SHA256RNDS2/MSG1/MSG2; "
+        "AESENC/AESENCLAST/AESKEYGENASSIST) are transcribed from the Intel SDM into Model/CpuPaths.lean and Model/CpuAesni.lean; the `insn` op runs "
+        "each of them on the CPU against the transcription (L2), the theorems take them as given",
         "cpuid feature detection and the dispatch self-tests are not modelled; the selected path is universally quantified in the theorems",
-        "AES/AES-CTR: reference = portable build of the same source (implementation-vs-implementation), until Spec.Aes/Spec.Ctr are available to pmodel",
+        "the AES-CTR bulk loop of crypto_aesctr_aesni.c is not modelled here (C02's routing theorem); it is tied by the correspondence run only",
+        "the portable table-driven CRC32C loop and the portable SHA-256 macro structure equal the byte step / FIPS round by C01's theorems; here the portable build is tied to Spec by the run",
+        "AES/AES-CTR family `aes-*`: reference = %s" % ("portable build of the same source (implementation-vs-implementation)" if AES_REFERENCE != "pmodel"
+                                                        else "Model.CpuAesni.Fips (self-contained FIPS-197 transcription, C.1/C.3 kernel-evaluated)"),
     ]
-    ctx.trusted += ["pmodel (compiled Lean model)", "tools/extractors/c03.py (loop bounds, thresholds, shift/shuffle immediates, round constants)",
-                    "harness/h_cpu*.c", "gcc -m{sse2,ssse3,sse4.2,sha,aes} code generation for the intrinsics", "OpenSSL AES_encrypt (software path; reference of the AES family)"]
+    ctx.trusted += ["pmodel (compiled Lean model)", "tools/extractors/c03.py (loop bounds, thresholds, shift/shuffle immediates, round constants, rcon immediates)",
+                    "harness/h_cpu*.c", "gcc -m{sse2,ssse3,sse4.2,sha,aes} code generation for the intrinsics", "OpenSSL AES_encrypt (software path; reference of the AES family)",
+                    "Intel SDM instruction semantics as transcribed (see assumptions)"]
     # compile the seven builds in parallel before the (sequential) standard flow; the flow then hits the cache
     def prebuild(nf):
         srcs, cpu, extra = build_args(nf[1])
@@ -387,6 +396,7 @@ def check(ctx):
             fails += vlib.check_component(ctx, comp, budget_mult=10)
         vlib.process_failures(ctx, comp, fails)
     return vlib.finish(ctx, "proof", MODULES, explanation=(
-        "Theorems: the SSE4.2 CRC32C update and the SSE2 SHA-256 message schedule equal the specified functions for every "
-        "alignment/length/partition, given SDM instruction semantics. Tie: 7 builds of the real code, each confirmed to run the intended path; "
-        "SHA/CRC judged by Spec, AES/CTR by equivalence with the portable build."))
+        "Theorems (all inputs): SSE4.2 CRC32C update (64- and 32-bit loads) tiles the buffer with aligned loads and equals the byte-wise CRC, any stream of calls on "
+        "any mixture of paths = Spec.Crc32c; SSE2 and SHA-NI transforms = FIPS 180-4 compression; AES-NI key expansion and block encryption = FIPS-197 "
+        "(given SDM instruction semantics). Tie: 7 builds of the real code, each confirmed to run the intended path (natural cpuid+self-test selection and pinned), "
+        "SHA/CRC judged by Spec, AES/CTR by equivalence with the portable build and by a FIPS-197 transcription; every modelled instruction run against the CPU."))
